@@ -76,3 +76,29 @@ exid_harness!(exid_bytes_framing_actor16, 16);
 exid_harness!(exid_bytes_framing_actor127, 127);
 exid_harness!(exid_bytes_framing_actor128, 128);
 
+
+/// Two object ids are the same id exactly when counter and actor agree - the actor-index HINT is
+/// replica-local and must not take part in ==, in the order, or (by the same fields) in the hash:
+/// an id handed out by one replica must equal the id another replica reports for the same object.
+/// Counters ANY u64, one-byte actors of ANY value, hints ANY usize; Root is least and equals only Root.
+#[kani::proof]
+#[kani::unwind(6)]
+fn exid_identity_ignores_hint() {
+    let (c1, c2): (u64, u64) = (kani::any(), kani::any());
+    let (a1, a2): (u8, u8) = (kani::any(), kani::any());
+    let (h1, h2): (usize, usize) = (kani::any(), kani::any());
+    let x = ExId::Id(c1, ActorId::from(&[a1][..]), h1);
+    let y = ExId::Id(c2, ActorId::from(&[a2][..]), h2);
+    let same = c1 == c2 && a1 == a2;
+    assert!((x == y) == same);
+    let want = if c1 != c2 { c1.cmp(&c2) } else { a1.cmp(&a2) };
+    assert!(x.cmp(&y) == want);
+    assert!((x.cmp(&y) == Ordering::Equal) == (x == y));
+    assert!(x.partial_cmp(&y) == Some(want));
+    assert!(ExId::Root == ExId::Root && ExId::Root != x && x != ExId::Root);
+    assert!(ExId::Root.cmp(&x) == Ordering::Less && x.cmp(&ExId::Root) == Ordering::Greater);
+    kani::cover!(same && h1 != h2);
+    kani::cover!(c1 == c2 && a1 != a2);
+    std::mem::forget(x);
+    std::mem::forget(y);
+}
